@@ -1,97 +1,7 @@
-"""Which lemmas make up each property (consumed by tools/mkprops.py)."""
-Q = ['Model.Queue', 'Proofs.QueueInv', 'Proofs.QueueReach', 'Proofs.QueueProps']
-SPEC = {
- 'C01': dict(title='Every published buffer chain is well-formed and describes the caller\'s buffers', imports=Q, theorems=[
-   ('C01_add_publishes', 'Proofs/QueueProps.v', 'add_publishes', 'for every reachable state (any history, size 2^k, flags) and any device: what the device reaches from the new ring entry is exactly the caller\'s buffers (address, length, direction, order), readable before writable, in the slot designated by the previous index, index +1 mod 2^16, indirect iff enabled and more than one buffer, no cell of another outstanding chain touched'),
-   ('C01_all_outstanding_wf', 'Proofs/QueueProps.v', 'all_chains_walk', 'at any time, every outstanding chain still walks to the buffers submitted for it'),
-   ('C01_disjoint', 'Proofs/QueueProps.v', 'chains_disjoint', 'no descriptor belongs to two outstanding chains; the counter is exact'),
-   ('C01_invariant', 'Proofs/QueueReach.v', 'Reach_Inv', 'the invariant behind all of the above holds in every reachable state'),
-   ('C01_walk_of_chain', 'Proofs/QueueProps.v', 'walk_chain_ok', None),
- ], examples=[
-   'Example C01_nonvacuous : exists s1 evs, add (qnew 4 false false) [mkBuf 1 8 100] [mkBuf 2 16 200] 0 = (Ok 0, s1, evs)\n  /\\ walk (q_dtable s1) (fun _ => None) 0 4 = Some [(100, 8, false); (200, 16, true)].\nProof. eexists; eexists; vm_compute; split; reflexivity. Qed.',
-   'Example C01_nonvacuous_indirect : exists s1 evs, add (qnew 4 true false) [mkBuf 1 8 100] [mkBuf 2 16 200] 900 = (Ok 0, s1, evs)\n  /\\ walk (q_dtable s1) (fun a => if a =? 900 then nthN (q_ind s1) 0 None else None) 0 4 = Some [(100, 8, false); (200, 16, true)].\nProof. eexists; eexists; vm_compute; split; reflexivity. Qed.']),
- 'C02': dict(title='The device never sees an available index covering an incomplete entry', imports=Q, theorems=[
-   ('C02_idx_last', 'Proofs/QueueProps.v', 'add_store_order', 'the stores of a successful submission are: shares and descriptor stores into cells of the new chain only (cells of no outstanding chain), then the ring slot, then the fence, then the index - the index store is last'),
-   ('C02_no_idx_store_in_pop', 'Proofs/QueueProps.v', 'pop_stores_no_idx', 'consuming a completion (whatever the device wrote) never stores the available index or a ring slot'),
-   ('C02_refused_add_stores_nothing', 'Proofs/QueueProps.v', 'add_refusals', 'a refused submission stores nothing'),
-   ('C02_entries_stay_complete', 'Proofs/QueueProps.v', 'all_chains_walk', 'in every reachable state every outstanding entry is completely written (sequentially consistent memory)'),
- ]),
- 'C03': dict(title='Completions are consumed exactly once in any order; descriptor counts stay exact', imports=Q, theorems=[
-   ('C03_pop_refines', 'Proofs/QueueProps.v', 'pop_refines', 'for every reachable state, every outstanding chain c and EVERY used-ring content: nothing ready -> NotReady, nothing changes; another id first -> WrongToken, nothing changes; this chain next -> Ok(len), the chain is removed, its cells become the head of the free list, everything else untouched'),
-   ('C03_counts', 'Proofs/QueueProps.v', 'counts_exact', None),
-   ('C03_refusal', 'Proofs/QueueProps.v', 'add_refusals', 'InvalidParam iff no buffers, QueueFull iff the capacity predicate fails, both without side effects; otherwise accepted'),
-   ('C03_add_cases', 'Proofs/QueueReach.v', 'add_cases', None),
-   ('C03_invariant', 'Proofs/QueueReach.v', 'Reach_Inv', 'holds for arbitrary index values: no lemma bounds avail_idx / last_used_idx, all index arithmetic is mod 2^16'),
- ], examples=[
-   'Example C03_wrap_nonvacuous : exists s1 evs, add (qset_indices (qnew 4 false true) 65535) [mkBuf 1 8 100] [] 0 = (Ok 0, s1, evs)\n  /\\ q_avail_idx s1 = 0 /\\ nthN (q_aring s1) 3 7 = 0.\nProof. eexists; eexists; vm_compute; repeat split; reflexivity. Qed.']),
- 'C04': dict(title='Each buffer is shared with the device once and unshared once, arguments matching', imports=Q, theorems=[
-   ('C04_ledger', 'Proofs/QueueProps.v', 'ledger_balanced', 'as multisets: all shares = all unshares + the shares of the outstanding chains; every tuple carries (device address, buffer identity, length, direction)'),
-   ('C04_unshare_at_pop', 'Proofs/QueueProps.v', 'ledger_pop_evs', 'the unshares of a successful pop are exactly the shares of the chain it consumes (same address, range, direction)'),
-   ('C04_pop_events', 'Proofs/QueueProps.v', 'pop_refines', 'and they happen inside that pop and nowhere else'),
-   ('C04_no_share_on_refusal', 'Proofs/QueueProps.v', 'add_refusals', None),
-   ('C04_addresses', 'Proofs/QueueProps.v', 'add_publishes', 'every address the device reaches from a published slot is the share answer for that buffer'),
- ]),
- 'C05': dict(title='No lost wake-ups: notifications are requested whenever the other side needs one', imports=['Model.Queue', 'Proofs.NotifyProofs'], theorems=[
-   ('C05_flag_mode', 'Proofs/NotifyProofs.v', 'flag_mode', None),
-   ('C05_flag_is_bit0', 'Proofs/NotifyProofs.v', 'land1_testbit', None),
-   ('C05_event_mode', 'Proofs/NotifyProofs.v', 'event_mode', 'all 2^16 x 2^16 index pairs and every batch 1..2^15 at once'),
-   ('C05_event_mode_arith', 'Proofs/NotifyProofs.v', 'event_mode_sound', None),
-   ('C05_plain_comparison_refuted', 'Proofs/NotifyProofs.v', 'plain_refuted', 'the comparison used before the repair (fix: commit 3eeee1c) is refuted'),
-   ('C05_plain_agrees_away_from_wrap', 'Proofs/NotifyProofs.v', 'plain_agrees', None),
-   ('C05_rearm', 'Proofs/NotifyProofs.v', 'rearm_need_event', 'used_event := last_used_idx after every pop (C03_pop_refines) makes the next completion interrupt'),
-   ('C05_driver_setting', 'Proofs/NotifyProofs.v', 'set_dev_notify_flag', None),
-   ('C05_driver_setting_event_idx', 'Proofs/NotifyProofs.v', 'set_dev_notify_event_idx', None),
- ]),
- 'C07': dict(title='A misbehaving device cannot corrupt driver state or cause invalid memory access', imports=Q + ['Proofs.QueueNonInt'], theorems=[
-   ('C07_pop_any_used_ring', 'Proofs/QueueProps.v', 'pop_refines', 'u_idx, u_id, u_len are universally quantified: whatever the device writes, the outcome is Ok / NotReady / WrongToken and the successor state is reachable (hence satisfies the invariant)'),
-   ('C07_invariant', 'Proofs/QueueReach.v', 'Reach_Inv', None),
-   ('C07_add_noninterference', 'Proofs/QueueNonInt.v', 'add_indep', 'results, events and private state do not depend on the contents of descriptor table / available ring / flags / used_event'),
-   ('C07_pop_noninterference', 'Proofs/QueueNonInt.v', 'pop_indep', None),
-   ('C07_query_noninterference', 'Proofs/QueueNonInt.v', 'queries_indep', None),
- ]),
- 'C19': dict(title='Event queues deliver each device event once, in order, and stay fully stocked', imports=Q + ['Model.Owning', 'Proofs.OwningProofs'], theorems=[
-   ('C19_new_stocked', 'Proofs/OwningProofs.v', 'owning_new_stocked', 'OwningQueue::new on a fresh queue of any size 2^k: token i for buffer i (the assert never fires), and afterwards every descriptor is posted'),
-   ('C19_poll_stocked', 'Proofs/OwningProofs.v', 'poll_stocked', 'OwningQueue::poll for EVERY device behaviour: nothing pending -> nothing changes; a used id >= SIZE -> WrongToken, nothing changes; otherwise the completion at the head of the used ring is delivered once, under its own token, with the length the device recorded if it fits the buffer, the buffer is re-posted under the same token (the assert never fires) and the queue is fully stocked again; a length above BUFFER_SIZE gives IoError and never a longer slice'),
-   ('C19_every_token_posted', 'Proofs/OwningProofs.v', 'stocked_has_chain', None),
-   ('C19_lifo_token', 'Proofs/QueueProps.v', 'lifo_token', 'after a successful pop of chain c the immediately following one-buffer add returns the same token (also with indirect enabled: a one-buffer chain is direct)'),
-   ('C19_pop', 'Proofs/QueueProps.v', 'pop_refines', None),
- ]),
- 'C10': dict(title='The MMIO transport performs exactly the register accesses the spec prescribes', imports=['Model.Mmio', 'Model.MmioSpec', 'Proofs.MmioProofs'], theorems=[
-   ('C10_layout_offsets', 'Proofs/MmioProofs.v', 'offsets_match_spec', 'the offsets the #[repr(C)] declaration of VirtIOHeader gives its members are the offsets of the specification table; the block is 0x100 bytes'),
-   ('C10_layout_wrappers', 'Proofs/MmioProofs.v', 'wrappers_match_spec', 'each member is 4 bytes and its safe-mmio wrapper (ReadPure / WriteOnly / ReadPureWrite) is the direction the specification gives the register'),
-   ('C10_ops_conform', 'Proofs/MmioProofs.v', 'ops_conform_all', 'for every operation, every argument in the range of its Rust type, every list of device answers, both versions, both profiles: the monitor predicate mmio_conform_b (table membership for the version, direction, 32-bit width, registers allowed for the operation, QueueSel with the right index before per-queue registers, enabling write last after all parameters, per-operation values) holds of the accesses the model performs'),
-   ('C10_ops_conform_but_one', 'Proofs/MmioProofs.v', 'ops_conform', 'the same statement with the legacy read_config_generation case excluded (this is what held before the repair 6a3b294)'),
-   ('C10_ops_conform_refuted', 'Proofs/MmioProofs.v', 'ops_conform_refuted', 'the behaviour before the repair (fix: 6a3b294) is refuted: read_config_generation on a legacy device read offset 0x0fc, which the legacy layout (4.2.4) does not define'),
-   ('C10_legacy_config_generation', 'Proofs/MmioProofs.v', 'legacy_config_generation_trace', 'since the repair nothing is accessed there'),
-   ('C10_accesses_defined', 'Proofs/MmioProofs.v', 'ops_accesses_defined', 'as propositions: every access is 4 bytes wide, at the offset of a register the table defines for this version (so never in a reserved gap), never a read of a write-only or a write of a read-only register, and among the registers the operation may touch'),
-   ('C10_queue_selected', 'Proofs/MmioProofs.v', 'ops_queue_selected', 'every access to a per-queue register is preceded, within the same operation, by a write of QueueSel carrying the operation\'s queue index (all operations, both versions)'),
-   ('C10_enable_last', 'Proofs/MmioProofs.v', 'ops_enable_last', 'a write that enables a queue (QueueReady := non-zero, legacy QueuePFN := non-zero) is the last access of its operation and every parameter register of the version was written before it'),
-   ('C10_modern_queue_set', 'Proofs/MmioProofs.v', 'modern_queue_set_trace', 'QueueSel, QueueNum, then Desc/Driver/Device Low and High with low + 2^32*high = address (low = address mod 2^32, high = address / 2^32), QueueReady := 1 last'),
-   ('C10_legacy_queue_set', 'Proofs/MmioProofs.v', 'legacy_queue_set_trace', 'accepted exactly for the layout of the three asserts (same verdict in debug and release, wrap-around included); then QueueSel, QueueNum, QueueAlign := 4096, QueuePFN := descriptors/4096 last; otherwise a panic before the first access'),
-   ('C10_legacy_align_remark', 'Proofs/MmioProofs.v', 'legacy_asserted_offset_overshoots', 'remark: the used-ring offset demanded by the assert is align_up_phys as written, a page beyond the specification\'s ALIGN when 18n+6 is a page multiple (n = 1365; never for the power-of-two sizes, C06_align_up_exact)'),
-   ('C10_begin_init_page_size', 'Proofs/MmioProofs.v', 'begin_init_legacy_page_size', 'begin_init on a legacy device ends with GuestPageSize := 4096 and writes no QueuePFN'),
-   ('C10_legacy_page_size_first', 'Proofs/MmioProofs.v', 'legacy_page_size_before_pfn', 'legacy ordering over a whole initialisation: after begin_init, along any sequence of operations that does not reset the device, every non-zero QueuePFN write comes after the GuestPageSize write'),
-   ('C10_read_features', 'Proofs/MmioProofs.v', 'read_features_trace', 'selector 0, read, selector 1, read; result = low + 2^32*high'),
-   ('C10_write_features', 'Proofs/MmioProofs.v', 'write_features_trace', 'selector 0, low word, selector 1, high word; low + 2^32*high = the 64-bit argument'),
-   ('C10_ack_interrupt', 'Proofs/MmioProofs.v', 'ack_interrupt_trace', 'the bits read from InterruptStatus are written back to InterruptACK unchanged (all 32, not only the two defined ones); when zero nothing is written; the result keeps the two defined bits'),
-   ('C10_drop_resets', 'Proofs/MmioProofs.v', 'drop_trace', 'dropping the transport is exactly one write, Status := 0'),
-   ('C10_simple_ops', 'Proofs/MmioProofs.v', 'simple_traces', None),
-   ('C10_queue_unset_legacy', 'Proofs/MmioProofs.v', 'queue_unset_legacy_trace', None),
-   ('C10_queue_unset_modern', 'Proofs/MmioProofs.v', 'queue_unset_modern_trace', 'QueueReady := 0, read back until 0, only then the parameters are cleared'),
-   ('C10_outcomes', 'Proofs/MmioProofs.v', 'ops_outcomes', 'only the legacy queue_set (its asserts) and, in the debug profile, begin_init (its debug_assert) can panic'),
-   ('C10_device_type_table', 'Proofs/MmioProofs.v', 'device_type_table', 'TryFrom<u32> for DeviceType: defined exactly on the known IDs 1..13, 16..25, never 0; ID 5 is mapped to MemoryBalloon (13)'),
-   ('C10_probe_writes_nothing', 'Proofs/MmioProofs.v', 'probe_writes_nothing', 'for every header content and region size'),
-   ('C10_probe_accepts_iff', 'Proofs/MmioProofs.v', 'probe_accepts_iff', 'accepted iff region >= 0x100 and magic = 0x74726976 and version in {1,2} and the device ID is known (hence non-zero)'),
-   ('C10_probe_accepted', 'Proofs/MmioProofs.v', 'probe_accepted', None),
-   ('C10_probe_refusals', 'Proofs/MmioProofs.v', 'probe_refusals', 'which error in each failing case, and the reads made up to it (region too small: none at all)'),
-   ('C10_probe_conforms', 'Proofs/MmioProofs.v', 'probe_conforms', 'the probe monitor holds of the model'),
-   ('C10_some_transport', 'Proofs/MmioProofs.v', 'some_transport_delegates', 'SomeTransport::Mmio is the identity wrapper in the model; the tie to src/transport/some.rs is the harness, which runs every scenario through the wrapper as well'),
-   ('C10_session_conforms', 'Proofs/MmioProofs.v', 'session_conforms', 'probe; begin_init; any operations that do not reset; drop: the session monitor holds (defined registers throughout, page size before PFN, reset last)'),
-   ('C10_monitor_table_meaning', 'Proofs/MmioProofs.v', 'table_ok_sound', 'what a true monitor verdict means on ANY trace (in particular an observed one)'),
-   ('C10_monitor_qsel_meaning', 'Proofs/MmioProofs.v', 'qsel_scan_sound', None),
-   ('C10_monitor_enable_meaning', 'Proofs/MmioProofs.v', 'enable_scan_sound', None),
- ], examples=[
-   'Example C10_legacy_queue_set_nonvacuous :\n  legacy_layout_ok 8 0x10000 (0x10000 + 128) (0x10000 + 4096)\n  /\\ exec Debug Legacy 2 (OQueueSet 1 8 0x10000 (0x10000 + 128) (0x10000 + 4096)) [] =\n       (Ok 0, [W 0x30 1; W 0x38 8; W 0x3c 4096; W 0x40 16]).\nProof. exact legacy_queue_set_nonvacuous. Qed.',
-   'Example C10_begin_init_nonvacuous :\n  exists r, fst (exec Debug Legacy 2 (OBeginInit 0x130000000) [0x30000000; 0]) = Ok r\n            /\\ keeps_gps (OQueueSet 0 8 0x10000 (0x10000 + 128) (0x10000 + 4096)) = true.\nProof. exact begin_init_nonvacuous. Qed.',
-   'Example C10_probe_nonvacuous :\n  fst (probe 0x100 MAGIC 1 2) = POk Legacy 2 /\\ fst (probe 0x200 MAGIC 2 5) = POk Modern 13\n  /\\ fst (probe 0xff MAGIC 2 5) = PErr ME_MmioRegionTooSmall 0.\nProof. exact probe_nonvacuous. Qed.']),
-}
+"""Which lemmas make up each property (consumed by tools/mkprops.py): loaded from tools/spec.d/Cxx.py (SPEC_ENTRY)."""
+import glob, os
+SPEC = {}
+for _f in sorted(glob.glob(os.path.join(os.path.dirname(os.path.abspath(__file__)), 'spec.d', 'C*.py'))):
+    _ns = {}
+    exec(open(_f).read(), _ns)
+    if _ns.get('SPEC_ENTRY'): SPEC[os.path.basename(_f)[:-3]] = _ns['SPEC_ENTRY']
